@@ -388,6 +388,15 @@ def run(tier):
         if not (f.name.startswith('reim_fft') or f.name.startswith('reim_ifft') or f.name.startswith('cplx_fft') or
                 f.name.startswith('cplx_ifft')) or f.name.endswith('_simple'):
             continue
+        S = E.summ[f.key]
+        from ..effects import FPENV
+        if FPENV in S.writes:
+            site = (S.write_sites.get(FPENV) or [('?', '?', '?')])[0]
+            R.ob('transform-leaves-the-floating-point-environment-alone', f.name, 'refuted',
+                 detail='%s changes the floating-point environment (%s at %s): subnormal inputs / later calls are affected' % (
+                     f.name, site[2], site[1]), key='%s:fpenv' % f.name, loc=site[1])
+        else:
+            R.ob('transform-leaves-the-floating-point-environment-alone', f.name, 'holds')
         da = f.d.get('dbgargs') or []
         for j, a in enumerate(da):
             if 'PRECOMP' in a['ty']:
